@@ -46,7 +46,7 @@ def describe(tier):
     return {
         'rule': 'dag: every circuit shape F(n,k,{1,2,3-operand gate}) with n+k=p nodes (inputs + gates, operand tuples '
         'with repeats, disconnected parts) x {dfs,bfs} x inverse x start_gates (full: None, every sequence of <=2 '
-        'nodes, every subset; lite: None, singletons, all nodes) x topsort_unvisited, all hooks traced; top_sort '
+        'nodes, every subset; lite: None, singletons, all nodes) x topsort_unvisited, all hooks traced (with start_gates=None and topsort_unvisited the enter hook reads the state of every gate from the mapping it is given); top_sort '
         'both directions. cyc: every directed graph on m<=4 gate nodes with 1-2 operands each over the gate nodes '
         'and one input (built with from_bench_string) x every output subset. distinct = distinct event-trace '
         'shapes / cycle verdicts.',
@@ -109,9 +109,18 @@ def check_dag(n, gates, acc, starts_mode, only=None):
                     acc.traces += 1
                     case = lambda: {**space.spec_json(n, gates, outs), 'mode': mode, 'inverse': inverse, 'start': start, 'topsort_unvisited': tsu}  # noqa: E731
                     ev = []
+                    # "nosy" hooks look up the state of every gate in the mapping they are handed
+                    nosy = tsu and start is None
+
+                    def _enter(g, s, ev=ev, nosy=nosy):
+                        if nosy:
+                            for l_ in labs:
+                                s[l_]
+                        ev.append(('enter', g.label))
+
                     kw = dict(
                         inverse=inverse,
-                        on_enter_hook=lambda g, s: ev.append(('enter', g.label)),
+                        on_enter_hook=_enter,
                         unvisited_hook=lambda g, s: ev.append(('unvisited', g.label)),
                         on_traversal_end_hook=lambda s: ev.append(('end', None)),
                         topsort_unvisited=tsu,
